@@ -118,6 +118,10 @@ def construct(g, dsl, ast, route):
     try:
         if route == 'raw':
             return 'ok', g.build_raw(ast)
+        if route == 'permuted':  # the clause methods of every query called in a seeded order (any order denotes one statement)
+            from vlib import core
+
+            return 'ok', g.build(ast, order=core.subseed('c07-order', g.signature(ast)))
         return 'ok', g.build(ast, split=(route == 'split'))
     except dsl.GrammarError as err:
         return 'grammar', err
@@ -337,6 +341,8 @@ def run(ctx):
         routes = ('fluent', 'raw')
         if ast[0] == 'query' and any(c is not None and c[0] == 'and' for c in (ast[3], ast[5])):
             routes += ('split',)
+        if ast[0] == 'query' and sum(1 for c in ast[2:8] if c) >= 2:
+            routes += ('permuted',)
         check_candidate(ctx, g, dsl, ast, routes=routes)
         if index % 211 == 0:
             ctx.sample({'conforming': ast})
@@ -351,9 +357,9 @@ def run(ctx):
         local = ctx.rng('random', i)
         ast = g.random_ast(local, depth=local.choice((2, 3, 3)))
         ctx.count('random_statements')
-        check_candidate(ctx, g, dsl, ast)
+        check_candidate(ctx, g, dsl, ast, routes=('fluent', 'raw', 'permuted'))
         for mutant, rule, position in g.mutate(ast, local, per_rule=ctx.pick(1, 3)):
-            check_candidate(ctx, g, dsl, mutant, rule, list(position))
+            check_candidate(ctx, g, dsl, mutant, rule, list(position), routes=('fluent', 'raw', 'permuted') if i % 4 == 0 else ('fluent', 'raw'))
     # -------- directed interactions and known findings (every shard: they are few)
     if ctx.shard == 0:
         for tag, ast, rule in directed(g):
